@@ -314,6 +314,10 @@ func init() {
 	// rules added after seed round 8 (DESIGN.md §10.12)
 	add("C10", "C9 no call of a user callback (a function held in a field or listener table) or of the neighbouring chain element happens with one of the object's mutexes held, beyond the (callee, mutex) pairs confirmed on the pinned tree: foreign code that calls back into the object would wait for the mutex its caller holds.")
 	add("C16", "C9 the bitrate-change callback and the pacer's downstream writes are not moved under the estimator's / pacer's mutexes.")
+	add("C02", "F3 also (count form): a prefix `s[:n]` whose n is a count field of a received RTCP/RTP object (TransportLayerCC.PacketStatusCount, a report's length) is preceded by a comparison of n with len(s) or cap(s), or s was made with that very n: the count is what the sender claims, not what the chunks decoded to.")
+	add("C10", "O5 also: a local header *value* filled by dereferencing the stored header (`h := *pkt.Header()`) is not owned — its CSRC and extension slices are the stored ones; only Clone() or a fresh literal is.")
+	add("C17", "Q1 also (list queue): the function that removes from the pacer's queue never inserts into it — a packet taken out and put back at the tail is behind every packet accepted since, those of its own stream included.")
+	add("C19", "S9 also (what is measured): a duration obtained with time.Time.Sub and stored into the statistics under a history match is computed from the history entry (field-sensitively: the same element and field) that was compared with the echoed LSR/LRR — the round-trip time is (arrival − delay) − the time the echoed timestamp names, not the distance to a local send time kept beside it.")
 	add("C17", "C9 the pacers' downstream writes are not moved under a pacer mutex (the no-op pacer's read lock is the confirmed, noted exception).")
 	add("C11", "D7 a service loop (a goroutine's select loop with a lifecycle case) is left only through that case: no early return on a failed write leaves the loop's channels unserved while the interceptor is still open.")
 	add("C02", "D7 no service loop dies early and leaves its producers blocked; T5 an open-ended view of a pooled buffer is only written into (never the source of a copy/XOR); F1 an index len(s)-c needs a test that bounds len(s) from below, an upper-bound test does not count.")
